@@ -76,7 +76,7 @@ type rowsT struct {
 	i       int
 	closed  bool
 	counted bool
-	mtx    sync.Mutex
+	mtx     sync.Mutex
 }
 
 func (drv) Open(string) (driver.Conn, error) { return &conn{}, nil }
@@ -175,9 +175,9 @@ type fakeRegistry struct {
 }
 
 func (r *fakeRegistry) GetDB(ctx context.Context) (*model.DataDatabasesMap, error) { return r.m, nil }
-func (r *fakeRegistry) Run()                                                        {}
-func (r *fakeRegistry) Stop()                                                       {}
-func (r *fakeRegistry) Ping() error                                                 { return nil }
+func (r *fakeRegistry) Run()                                                       {}
+func (r *fakeRegistry) Stop()                                                      {}
+func (r *fakeRegistry) Ping() error                                                { return nil }
 
 func newRegistry() *fakeRegistry {
 	sql.Register("verifscript", drv{})
